@@ -241,13 +241,30 @@ def standin(run, prop, tier, seed):
     harness = os.path.join(report.VERIF, "props", "run.py")
     if not os.path.exists(harness):
         return
+    # generator focus: the functions whose obligations are open (the stand-in's template families are indexed by function name);
+    # one focused run per function (at most two) and one run with the default mix
+    foci = []
+    for o in run.obligations:
+        if o.kind in ("cover", "canary") or o.status not in ("undecided", "refuted") or o.info.get("known"):
+            continue
+        fq = re.sub(r"\[[^\]]*\]$", "", o.name.split("/", 1)[0])
+        if fq not in foci and "." in fq:
+            foci.append(fq)
     try:
         env = dict(os.environ)
         env["PYTHONPATH"] = report.REPO + os.pathsep + env.get("PYTHONPATH", "")
         n = 300 if tier == "quick" else 3000
-        p = subprocess.run([VENV_PY, harness, prop, "--seed", str(seed), "--n", str(n)], capture_output=True, text=True,
-                           timeout=900, env=env)
-        out = json.loads(p.stdout.strip().splitlines()[-1])
+        out = None
+        for focus in foci[:2] + [None]:
+            cmd = [VENV_PY, harness, prop, "--seed", str(seed), "--n", str(n)] + (["--focus", focus] if focus else [])
+            p = subprocess.run(cmd, capture_output=True, text=True, timeout=900, env=env)
+            o1 = json.loads(p.stdout.strip().splitlines()[-1])
+            if out is None:
+                out = o1
+            else:
+                out["violations"] = list(out.get("violations", [])) + list(o1.get("violations", []))
+                out["evaluations"] = (out.get("evaluations") or 0) + (o1.get("evaluations") or 0)
+                out["bound"] = str(out.get("bound")) + " || " + str(o1.get("bound"))
     except Exception as ex:
         run.notes.append(f"stand-in failed to run: {ex!r}")
         return
